@@ -46,6 +46,7 @@ func (c02) ExhaustiveNote(tier string) (bool, string) {
 
 func (p c02) Run(c *core.Ctx) {
 	transientFaults := false
+	selfLookups := 0
 	var sc *world.Scenario
 	part := "random"
 	ec := p.enumCount(c.Tier)
@@ -82,6 +83,14 @@ func (p c02) Run(c *core.Ctx) {
 		if c.Index%3 == 0 {
 			addSelfCandidatePoints(c, sc)
 		}
+		if c.Index%2 == 0 {
+			// cycle members that also carry configuration tags (several scanners contribute to one definition)
+			for i := range sc.Nodes {
+				if c.Rng.Intn(2) == 0 {
+					sc.Nodes[i].Cfg = map[string]world.TagSpec{"CfgS": {Tag: "value", Val: "${c02.s:dflt}"}, "CfgI": {Tag: "prop", Val: "c02.i:7"}}
+				}
+			}
+		}
 		if c.Index%4 == 1 && len(sc.Nodes) <= 40 {
 			// a transient failure somewhere (a component's Init fails on its first invocation only), hit first
 			// from inside a service-locator lookup that swallows the error: the refresh creates the cycle
@@ -96,6 +105,34 @@ func (p c02) Run(c *core.Ctx) {
 			}
 			AddInitLookups(c.Rng, sc, 0.5)
 			transientFaults = true
+		}
+		if c.Index%4 == 2 {
+			// stateless service locators: components (preferably without any injection point of their own)
+			// that look themselves and the eager components holding them up in every initialization callback
+			adj := sc.NamedAdj()
+			for x := 0; x < 1+c.Rng.Intn(3); x++ {
+				i := c.Rng.Intn(len(sc.Nodes))
+				for tries := 0; tries < 8 && len(sc.Nodes[i].Tags) > 0; tries++ {
+					i = c.Rng.Intn(len(sc.Nodes))
+				}
+				if ti := world.Palette[sc.Nodes[i].Type]; !(ti.Init || ti.Aps) || len(sc.Nodes[i].Lookups) > 0 {
+					continue
+				}
+				sc.Nodes[i].LookupsAlways = true
+				if c.Rng.Intn(3) > 0 {
+					sc.Nodes[i].Lookups = append(sc.Nodes[i].Lookups, sc.Nodes[i].DisplayName())
+				}
+				for h := range adj {
+					for _, t := range adj[h] {
+						if t == i && h != i && !world.Palette[sc.Nodes[h].Type].Lazy && c.Rng.Intn(2) == 0 {
+							sc.Nodes[i].Lookups = append(sc.Nodes[i].Lookups, sc.Nodes[h].DisplayName())
+						}
+					}
+				}
+				if len(sc.Nodes[i].Lookups) > 0 {
+					selfLookups++
+				}
+			}
 		}
 	default:
 		part = "self"
@@ -149,6 +186,7 @@ func (p c02) Run(c *core.Ctx) {
 	}
 	c.Distinct("creation_traces", mon.ShapeHash(r.Tracer.Events()))
 	c.Count("part_"+part, 1)
+	c.Count("components_looking_themselves_or_their_holders_up_in_every_init", selfLookups)
 	c.Count("outcome_"+r.Outcome(), 1)
 	if len(problems) > 0 {
 		c.Count("problem_"+problems[0].Kind, 1)
